@@ -13,7 +13,7 @@ From Coq Require Import ZArith List Bool String.
 Import ListNotations.
 From TD Require Import Spec.PySlice Spec.C02_TorchShape Model.C02_ShapeOps
                        Proofs.C02_FrameP Proofs.C02_OpsP Proofs.C02_RefuteP Proofs.C02_MultiP Proofs.C02_StackP
-                       Proofs.C02_NamesP Proofs.C02_RejectP.
+                       Proofs.C02_NamesP Proofs.C02_RejectP Proofs.C02_RejLiftP Proofs.C02_RejOpsP Proofs.C02_RejMultiP.
 Open Scope string_scope.
 Open Scope Z_scope.
 
@@ -140,6 +140,61 @@ Theorem C02_illegal_rejected_refuted :
   t_view [3; 3] [3] = Reject /\ apply (Node [3; 3] None []) (OView [3]) = Done (Node [3] None []).
 Proof. exact C02l_leafless_accepts. Qed.
 Print Assumptions C02_illegal_rejected_refuted.
+
+(* The same statement at full strength for EVERY one-result operation, on every well-formed tree that contains a tensor
+   (anywhere, at any depth; [hasleaf G n t]: a tensor whose dims after the first n satisfy G): expand, view / reshape
+   (the -1 inference of _infer_size_impl included), unflatten, repeat, repeat_interleave(dim), and permute with any
+   number of dims that is not tensordict's prefix-permutation extension, next to the operations above; rank-0 batches
+   included (transpose / squeeze(dim) refuse every dim there).  Only the per-entry torch calls validate these
+   arguments, so the tensor is needed (C02-l is the complement), and for view / reshape it must not have a size-0
+   trailing dim (C02-o: with zero elements in every entry, a view to another numel is accepted). *)
+Theorem C02_illegal_rejected_with_entries : forall bs nm ents o,
+  wf (Node bs nm ents) -> reject_domain_full o bs -> torch_shape o bs = Reject ->
+  hasleaf (leaf_ok o) (List.length bs) (Node bs nm ents) ->
+  exists k, apply (Node bs nm ents) o = Raised k.
+Proof. exact illegal_is_rejected_with_entries. Qed.
+Print Assumptions C02_illegal_rejected_with_entries.
+
+Theorem C02_o_zero_numel_entries_refuted :
+  t_view [3; 3] [3] = Reject /\
+  apply (Node [3; 3] None [("a", Leaf [3; 3; 0])]) (OView [3]) = Done (Node [3] None [("a", Leaf [3; 0])]) /\
+  apply (Node [3; 3] None [("a", Leaf [3; 3; 0])]) (OReshape [3]) = Done (Node [3] None [("a", Leaf [3; 0])]).
+Proof. exact C02o_zero_numel_entries_accept. Qed.
+Print Assumptions C02_o_zero_numel_entries_refuted.
+
+(* operations with several results: unbind and chunk check their arguments themselves (every tree, even without
+   entries); split(list) refuses whatever torch refuses unless the sizes sum beyond the dim (D4, below) *)
+Theorem C02_unbind_illegal_rejected : forall bs nm ents d,
+  t_unbind bs d = Reject -> exists e, td_unbind (Node bs nm ents) d = Raised e.
+Proof. exact unbind_illegal_rejected. Qed.
+Print Assumptions C02_unbind_illegal_rejected.
+
+Theorem C02_chunk_illegal_rejected : forall bs nm ents c d,
+  t_chunk bs c d = Reject -> exists e, td_chunk (Node bs nm ents) c d = Raised e.
+Proof. exact chunk_illegal_rejected. Qed.
+Print Assumptions C02_chunk_illegal_rejected.
+
+Definition C02_split_list_illegal_rejected_full_statement : Prop :=
+  forall bs nm ents l d, t_split_list bs l d = Reject -> exists e, td_split (Node bs nm ents) (inr l) d = Raised e.
+
+Theorem C02_split_list_illegal_rejected_partial : forall bs nm ents l d,
+  t_split_list bs l d = Reject ->
+  (forall i, wrap_dim d (List.length bs) = Ok i -> sumZ l <= nthZ bs i) ->
+  exists e, td_split (Node bs nm ents) (inr l) d = Raised e.
+Proof. exact split_list_illegal_rejected_partial. Qed.
+Print Assumptions C02_split_list_illegal_rejected_partial.
+
+(* torch.cat compares the entries, never the batch sizes: operands of different batch RANK whose entries agree are
+   concatenated (C02-p; torch.stack does compare batch sizes) *)
+Theorem C02_p_cat_batch_rank_refuted :
+  t_cat [[2; 3]; [2]] 0 = Reject /\
+  td_cat [Node [2; 3] None [("a", Leaf [2; 3])]; Node [2] None [("a", Leaf [2; 3])]] 0
+    = Done (Node [4; 3] None [("a", Leaf [4; 3])]) /\
+  t_cat [[2]; [2; 3]] 0 = Reject /\
+  td_cat [Node [2] None [("a", Leaf [2; 3])]; Node [2; 3] None [("a", Leaf [2; 3])]] 0
+    = Done (Node [4] None [("a", Leaf [4; 3])]).
+Proof. exact C02p_cat_batch_rank_accept. Qed.
+Print Assumptions C02_p_cat_batch_rank_refuted.
 
 Theorem C02_D4_split_list_truncates_refuted :
   t_split_list [3] [5] 0 = Reject /\
@@ -292,6 +347,16 @@ Qed.
 Example C02_ex_reject : reject_domain (OPermute [0; 0; 1]) (top_shape ex_tree) /\ torch_shape (OPermute [0; 0; 1]) (top_shape ex_tree) = Reject
   /\ reject_domain (OTranspose 3 0) (top_shape ex_tree) /\ torch_shape (OTranspose 3 0) (top_shape ex_tree) = Reject.
 Proof. repeat split; try discriminate; vm_compute; reflexivity. Qed.
+
+Example C02_ex_reject_with_entries :
+  reject_domain_full (OView [7]) (top_shape ex_tree) /\ torch_shape (OView [7]) (top_shape ex_tree) = Reject /\
+  hasleaf (leaf_ok (OView [7])) 3 ex_tree /\ apply ex_tree (OView [7]) = Raised ERuntime /\
+  torch_shape (OView [-1; 4]) (top_shape ex_tree) = Reject /\ apply ex_tree (OView [-1; 4]) = Raised EAssert /\
+  torch_shape (OExpand [2; -2; 3]) (top_shape ex_tree) = Reject /\ apply ex_tree (OExpand [2; -2; 3]) = Raised ERuntime /\
+  torch_shape (ORepeat [1; -1; 1]) (top_shape ex_tree) = Reject /\ apply ex_tree (ORepeat [1; -1; 1]) = Raised ERuntime /\
+  torch_shape (OUnflatten 2 [2; 2]) (top_shape ex_tree) = Reject /\ apply ex_tree (OUnflatten 2 [2; 2]) = Raised ERuntime /\
+  t_split_list (top_shape ex_tree) [1; 1] 2 = Reject /\ td_split ex_tree (inr [1; 1]) 2 = Raised ERuntime.
+Proof. split; [exact I|]. split; [vm_compute; reflexivity|]. split; [exact ex_hasleaf_view|]. repeat split; vm_compute; reflexivity. Qed.
 
 Example C02_ex_cat :
   wrap_dim (-1) (List.length (top_shape ex_tree)) = Ok 2%nat /\ cong (cat_R 2) ex_tree ex_tree
